@@ -14,6 +14,7 @@ From BS Require Run.D_C05 Run.D_C14.
 From BS Require Import Run.D_C13.
 From BS Require Import Run.D_C07.
 From BS Require Import Run.D_C09.
+From BS Require Import Run.D_C11.
 Import ListNotations.
 Open Scope Z_scope.
 
@@ -244,6 +245,7 @@ Definition cmd_history (args : list sexp) : sexp :=
 Definition disp_ext (code : Z) (args : list sexp) : sexp :=
   let nn := code / 1000 in let sub := code mod 1000 in
   match nn with
+  | 11 => disp_c11 sub args
   | 9 => disp_c09 sub args
   | 7 => disp_c07 sub args
   | 13 => BS.Run.D_C13.disp_c13 sub args
